@@ -397,6 +397,13 @@ def programs(tier: str, seed: int = 0):
                     pass
                 yield dict(id=f"{name}|{fid}|s{slot}|{FILLERS.index(f0)}", text=text, template=name, slot=slot, filler=f0,
                            ctx=_ctx_for(toks, slot, f))
+                # the same variant in a file that starts with whitespace (gap offsets are absolute: C01 state _SOURCE_BYTES)
+                if full and slot > 0 and f0 in (" # c\n", "\n# c\n", "\n\n", " /* c */ "):
+                    t2 = "\n  " + text
+                    if t2 not in seen and not has_error(parse_cst(t2)):
+                        seen.add(t2)
+                        yield dict(id=f"{name}|{fid}|s{slot}|{FILLERS.index(f0)}|lead", text=t2, template=name, slot=slot, filler=f0,
+                                   ctx=None, lead_of=text)
     if tier == "thorough-multi":  # not used by the registered checks (see DESIGN.md: unstable known-finding signatures)
         rnd = random.Random(seed)
         bases = [b for b in base_programs("thorough")]
@@ -482,6 +489,8 @@ def signature(prog, symptom: str) -> str:
         if symptom.endswith(":comment-body-drifts"):
             return f"{symptom}|{filler_class(prog.get('filler'))}"
         return f"{symptom}|in={lca}|after={prev}|before={nxt}|{filler_class(prog.get('filler'))}"
+    if prog.get("lead_of"):
+        return f"{symptom.split(':')[0]}|only when the file starts with whitespace (gap offsets shift)"
     fill = prog["id"].split("|")[1]
     if "=" in fill:
         return f"{symptom}|canon|fill={fill.split('=', 1)[1]}"
